@@ -56,7 +56,7 @@ def build():
              "none_iff_no_pair": "(result is None) == forall(l, True, not rel(self, l, right))",
              "pure": "forall(l, r, True, rel(self, l, r) == rel(old(self), l, r))"}, defs=mm))
   back = "lambda s, l, r: r in s._bwd and l in s._bwd[r]"
-  mm2 = dict(mm, back=back, seen="lambda r: exists(i, 0 <= i < idx, __iterated__[i] == r)")
+  mm2 = dict(mm, back=back, seen="lambda r: r in __iterset__ and __position__[r] < idx")
   out.append(Contract(
     prefix="C13.twoway.mm.remove_left", target="twowaymap:TwoWayMap.remove_left",
     file="sandbox/grist/twowaymap.py",
@@ -152,13 +152,53 @@ def build():
       invariants=dict(linv,
         others_kept="forall(l, r, l != row_id, rel(m(self), l, r) == rel(m(old(self)), l, r))",
         progress="forall(r, True, rel(m(self), row_id, r) == (rel(m(old(self)), row_id, r) and "
-                 "not exists(i, 0 <= i < idx, __iterated__[i] == r)))",
+                 "not (r in __iterset__ and __position__[r] < idx)))",
         iterating_the_old_keys="forall(i, 0 <= i < len(__iterated__), rel(m(old(self)), row_id, __iterated__[i])) and "
                                "forall(r, rel(m(old(self)), row_id, r), exists(i, 0 <= i < len(__iterated__), __iterated__[i] == r))"))},
     ensures=dict(linv,
       row_gone="forall(r, True, not rel(m(self), row_id, r))",
       others_kept="forall(l, r, l != row_id, rel(m(self), l, r) == rel(m(old(self)), l, r))"),
     defs=lm, notes="requires the row to be indexed (get_mapped_keys of an unmapped row yields {None})"))
+  # ---- lookup.ContainsLookupMapping on top of the many-to-many map --------------------------------
+  CLM = lambda: Obj("ContainsLookupMapping", real_cls=lookup.ContainsLookupMapping, _row_key_map=MM(),
+                    consts={"get_new_keys_iter": SelfModel(
+                        "get_new_keys_iter(rec) -> the keys of rec (the ghost field __keys__)",
+                        lambda ip, s, rec: rec.fields["__keys__"])})
+  RecK = lambda: Obj("Record", _row_id=Int, __keys__=SetOf(Int))
+  cm = dict(mm, m="lambda s: s._row_key_map",
+            seen="lambda k: k in __iterset__ and __position__[k] < idx")
+  cinv = {"sync": "sync(m(self))", "no_empty": "no_empty(m(self))"}
+  others = "forall(l, r, l != rec._row_id, rel(m(self), l, r) == rel(m(old(self)), l, r))"
+  out.append(Contract(
+    prefix="C13.containsmap.update_record", target="lookup:ContainsLookupMapping.update_record",
+    file="sandbox/grist/lookup.py",
+    params=dict(self=CLM(), rec=RecK()), requires=cinv,
+    loops={
+      0: LoopSpec("C13.containsmap.update_record.drop_old", index="idx", locals=dict(self=CLM()),
+                  invariants=dict(cinv, others_kept=others,
+                    dropped_so_far="forall(k, True, rel(m(self), rec._row_id, k) == (rel(m(old(self)), rec._row_id, k) "
+                                   "and not (k not in rec.__keys__ and seen(k))))",
+                    iterating_old_minus_new="forall(i, 0 <= i < len(__iterated__), rel(m(old(self)), rec._row_id, __iterated__[i]) "
+                                            "and __iterated__[i] not in rec.__keys__) and "
+                                            "forall(k, rel(m(old(self)), rec._row_id, k) and k not in rec.__keys__, "
+                                            "exists(i, 0 <= i < len(__iterated__), __iterated__[i] == k))")),
+      1: LoopSpec("C13.containsmap.update_record.add_new", index="idx", locals=dict(self=CLM()),
+                  invariants=dict(cinv, others_kept=others,
+                    added_so_far="forall(k, True, rel(m(self), rec._row_id, k) == ((rel(m(old(self)), rec._row_id, k) "
+                                 "and k in rec.__keys__) or (k in rec.__keys__ and seen(k))))",
+                    iterating_new_minus_old="forall(i, 0 <= i < len(__iterated__), __iterated__[i] in rec.__keys__ and "
+                                            "not rel(m(old(self)), rec._row_id, __iterated__[i])) and "
+                                            "forall(k, k in rec.__keys__ and not rel(m(old(self)), rec._row_id, k), "
+                                            "exists(i, 0 <= i < len(__iterated__), __iterated__[i] == k))")),
+    },
+    ensures=dict(cinv, others_kept=others,
+      row_indexed_under_exactly_its_keys="forall(k, True, rel(m(self), rec._row_id, k) == (k in rec.__keys__))",
+      affected_keys="forall(k, True, (k in result) == ((k in rec.__keys__) != rel(m(old(self)), rec._row_id, k)))"),
+    defs=cm,
+    notes="CONTAINS lookups: a row is indexed under every key of its list cell; get_new_keys_iter is a "
+          "stub returning the record's ghost key set; thorough tier only (some obligations need "
+          "10-25 s of solver time on a loaded machine)"))
+  out[-1].only_tier = "thorough"
   return out
 
 
